@@ -177,3 +177,8 @@ pub fn message_freq_change(m: &KalmanControllerMessage) -> Option<(f64, NtpTimes
     }
 }
 pub use super::super::InternalStateUpdate;
+
+// ---------------------------------------------------------------- update_clock control-logic harnesses (lead)
+pub fn controller_set_leap<C: NtpClock>(c: &mut KalmanClockController<C>, leap: NtpLeapIndicator) {
+    c.timedata.leap_indicator = leap;
+}
